@@ -96,11 +96,11 @@ fn translocate_single_case<const N: usize>(s: usize, e: usize, idx: usize) {
 }
 /// all valid (range, index) of a length-3 solution (documented preconditions + the function's own assertion), each as a
 /// concrete case selected by a symbolic index (so the rotations run on concrete bounds); contents symbolic
-/// @verif anchor=translocate_slice bound="length 3; all 17 valid (range, index) cases; all contents; both implementations agree"
+/// @verif anchor=translocate_slice bound="length 3; all 23 valid (range, index) cases (range.end <= length); all contents; both implementations agree"
 #[cfg_attr(kani, kani::proof)] #[cfg_attr(kani, kani::unwind(6))]
 pub fn c13_translocate_n3() {
     let k: usize = sym();
-    assume(k < 17);
+    assume(k < 23);
     if k == 0 { translocate_case::<3>(0, 0, 0); }
     if k == 1 { translocate_case::<3>(0, 0, 1); }
     if k == 2 { translocate_case::<3>(0, 0, 2); }
@@ -109,21 +109,27 @@ pub fn c13_translocate_n3() {
     if k == 5 { translocate_case::<3>(0, 1, 2); }
     if k == 6 { translocate_case::<3>(0, 2, 0); }
     if k == 7 { translocate_case::<3>(0, 2, 1); }
-    if k == 8 { translocate_case::<3>(1, 1, 0); }
-    if k == 9 { translocate_case::<3>(1, 1, 1); }
-    if k == 10 { translocate_case::<3>(1, 1, 2); }
-    if k == 11 { translocate_case::<3>(1, 2, 0); }
-    if k == 12 { translocate_case::<3>(1, 2, 1); }
-    if k == 13 { translocate_case::<3>(1, 2, 2); }
-    if k == 14 { translocate_case::<3>(2, 2, 0); }
-    if k == 15 { translocate_case::<3>(2, 2, 1); }
-    if k == 16 { translocate_case::<3>(2, 2, 2); }
+    if k == 8 { translocate_case::<3>(0, 3, 0); }
+    if k == 9 { translocate_case::<3>(1, 1, 0); }
+    if k == 10 { translocate_case::<3>(1, 1, 1); }
+    if k == 11 { translocate_case::<3>(1, 1, 2); }
+    if k == 12 { translocate_case::<3>(1, 2, 0); }
+    if k == 13 { translocate_case::<3>(1, 2, 1); }
+    if k == 14 { translocate_case::<3>(1, 2, 2); }
+    if k == 15 { translocate_case::<3>(1, 3, 0); }
+    if k == 16 { translocate_case::<3>(1, 3, 1); }
+    if k == 17 { translocate_case::<3>(2, 2, 0); }
+    if k == 18 { translocate_case::<3>(2, 2, 1); }
+    if k == 19 { translocate_case::<3>(2, 2, 2); }
+    if k == 20 { translocate_case::<3>(2, 3, 0); }
+    if k == 21 { translocate_case::<3>(2, 3, 1); }
+    if k == 22 { translocate_case::<3>(2, 3, 2); }
 }
-/// @verif anchor=translocate_slice tier=thorough bound="length 4; all 36 valid (range, index) cases; all contents (in-place implementation alone)"
+/// @verif anchor=translocate_slice tier=thorough bound="length 4; all 46 valid (range, index) cases (range.end <= length); all contents (in-place implementation alone)"
 #[cfg_attr(kani, kani::proof)] #[cfg_attr(kani, kani::unwind(7))]
 pub fn c13_translocate_single_n4() {
     let k: usize = sym();
-    assume(k < 36);
+    assume(k < 46);
     if k == 0 { translocate_single_case::<4>(0, 0, 0); }
     if k == 1 { translocate_single_case::<4>(0, 0, 1); }
     if k == 2 { translocate_single_case::<4>(0, 0, 2); }
@@ -137,35 +143,45 @@ pub fn c13_translocate_single_n4() {
     if k == 10 { translocate_single_case::<4>(0, 2, 2); }
     if k == 11 { translocate_single_case::<4>(0, 3, 0); }
     if k == 12 { translocate_single_case::<4>(0, 3, 1); }
-    if k == 13 { translocate_single_case::<4>(1, 1, 0); }
-    if k == 14 { translocate_single_case::<4>(1, 1, 1); }
-    if k == 15 { translocate_single_case::<4>(1, 1, 2); }
-    if k == 16 { translocate_single_case::<4>(1, 1, 3); }
-    if k == 17 { translocate_single_case::<4>(1, 2, 0); }
-    if k == 18 { translocate_single_case::<4>(1, 2, 1); }
-    if k == 19 { translocate_single_case::<4>(1, 2, 2); }
-    if k == 20 { translocate_single_case::<4>(1, 2, 3); }
-    if k == 21 { translocate_single_case::<4>(1, 3, 0); }
-    if k == 22 { translocate_single_case::<4>(1, 3, 1); }
-    if k == 23 { translocate_single_case::<4>(1, 3, 2); }
-    if k == 24 { translocate_single_case::<4>(2, 2, 0); }
-    if k == 25 { translocate_single_case::<4>(2, 2, 1); }
-    if k == 26 { translocate_single_case::<4>(2, 2, 2); }
-    if k == 27 { translocate_single_case::<4>(2, 2, 3); }
-    if k == 28 { translocate_single_case::<4>(2, 3, 0); }
-    if k == 29 { translocate_single_case::<4>(2, 3, 1); }
-    if k == 30 { translocate_single_case::<4>(2, 3, 2); }
-    if k == 31 { translocate_single_case::<4>(2, 3, 3); }
-    if k == 32 { translocate_single_case::<4>(3, 3, 0); }
-    if k == 33 { translocate_single_case::<4>(3, 3, 1); }
-    if k == 34 { translocate_single_case::<4>(3, 3, 2); }
-    if k == 35 { translocate_single_case::<4>(3, 3, 3); }
+    if k == 13 { translocate_single_case::<4>(0, 4, 0); }
+    if k == 14 { translocate_single_case::<4>(1, 1, 0); }
+    if k == 15 { translocate_single_case::<4>(1, 1, 1); }
+    if k == 16 { translocate_single_case::<4>(1, 1, 2); }
+    if k == 17 { translocate_single_case::<4>(1, 1, 3); }
+    if k == 18 { translocate_single_case::<4>(1, 2, 0); }
+    if k == 19 { translocate_single_case::<4>(1, 2, 1); }
+    if k == 20 { translocate_single_case::<4>(1, 2, 2); }
+    if k == 21 { translocate_single_case::<4>(1, 2, 3); }
+    if k == 22 { translocate_single_case::<4>(1, 3, 0); }
+    if k == 23 { translocate_single_case::<4>(1, 3, 1); }
+    if k == 24 { translocate_single_case::<4>(1, 3, 2); }
+    if k == 25 { translocate_single_case::<4>(1, 4, 0); }
+    if k == 26 { translocate_single_case::<4>(1, 4, 1); }
+    if k == 27 { translocate_single_case::<4>(2, 2, 0); }
+    if k == 28 { translocate_single_case::<4>(2, 2, 1); }
+    if k == 29 { translocate_single_case::<4>(2, 2, 2); }
+    if k == 30 { translocate_single_case::<4>(2, 2, 3); }
+    if k == 31 { translocate_single_case::<4>(2, 3, 0); }
+    if k == 32 { translocate_single_case::<4>(2, 3, 1); }
+    if k == 33 { translocate_single_case::<4>(2, 3, 2); }
+    if k == 34 { translocate_single_case::<4>(2, 3, 3); }
+    if k == 35 { translocate_single_case::<4>(2, 4, 0); }
+    if k == 36 { translocate_single_case::<4>(2, 4, 1); }
+    if k == 37 { translocate_single_case::<4>(2, 4, 2); }
+    if k == 38 { translocate_single_case::<4>(3, 3, 0); }
+    if k == 39 { translocate_single_case::<4>(3, 3, 1); }
+    if k == 40 { translocate_single_case::<4>(3, 3, 2); }
+    if k == 41 { translocate_single_case::<4>(3, 3, 3); }
+    if k == 42 { translocate_single_case::<4>(3, 4, 0); }
+    if k == 43 { translocate_single_case::<4>(3, 4, 1); }
+    if k == 44 { translocate_single_case::<4>(3, 4, 2); }
+    if k == 45 { translocate_single_case::<4>(3, 4, 3); }
 }
-/// @verif anchor=translocate_slice tier=thorough bound="length 4; all 36 valid (range, index) cases; both implementations agree"
+/// @verif anchor=translocate_slice tier=thorough bound="length 4; all 46 valid (range, index) cases (range.end <= length); both implementations agree"
 #[cfg_attr(kani, kani::proof)] #[cfg_attr(kani, kani::unwind(7))]
 pub fn c13_translocate_n4() {
     let k: usize = sym();
-    assume(k < 36);
+    assume(k < 46);
     if k == 0 { translocate_case::<4>(0, 0, 0); }
     if k == 1 { translocate_case::<4>(0, 0, 1); }
     if k == 2 { translocate_case::<4>(0, 0, 2); }
@@ -179,29 +195,39 @@ pub fn c13_translocate_n4() {
     if k == 10 { translocate_case::<4>(0, 2, 2); }
     if k == 11 { translocate_case::<4>(0, 3, 0); }
     if k == 12 { translocate_case::<4>(0, 3, 1); }
-    if k == 13 { translocate_case::<4>(1, 1, 0); }
-    if k == 14 { translocate_case::<4>(1, 1, 1); }
-    if k == 15 { translocate_case::<4>(1, 1, 2); }
-    if k == 16 { translocate_case::<4>(1, 1, 3); }
-    if k == 17 { translocate_case::<4>(1, 2, 0); }
-    if k == 18 { translocate_case::<4>(1, 2, 1); }
-    if k == 19 { translocate_case::<4>(1, 2, 2); }
-    if k == 20 { translocate_case::<4>(1, 2, 3); }
-    if k == 21 { translocate_case::<4>(1, 3, 0); }
-    if k == 22 { translocate_case::<4>(1, 3, 1); }
-    if k == 23 { translocate_case::<4>(1, 3, 2); }
-    if k == 24 { translocate_case::<4>(2, 2, 0); }
-    if k == 25 { translocate_case::<4>(2, 2, 1); }
-    if k == 26 { translocate_case::<4>(2, 2, 2); }
-    if k == 27 { translocate_case::<4>(2, 2, 3); }
-    if k == 28 { translocate_case::<4>(2, 3, 0); }
-    if k == 29 { translocate_case::<4>(2, 3, 1); }
-    if k == 30 { translocate_case::<4>(2, 3, 2); }
-    if k == 31 { translocate_case::<4>(2, 3, 3); }
-    if k == 32 { translocate_case::<4>(3, 3, 0); }
-    if k == 33 { translocate_case::<4>(3, 3, 1); }
-    if k == 34 { translocate_case::<4>(3, 3, 2); }
-    if k == 35 { translocate_case::<4>(3, 3, 3); }
+    if k == 13 { translocate_case::<4>(0, 4, 0); }
+    if k == 14 { translocate_case::<4>(1, 1, 0); }
+    if k == 15 { translocate_case::<4>(1, 1, 1); }
+    if k == 16 { translocate_case::<4>(1, 1, 2); }
+    if k == 17 { translocate_case::<4>(1, 1, 3); }
+    if k == 18 { translocate_case::<4>(1, 2, 0); }
+    if k == 19 { translocate_case::<4>(1, 2, 1); }
+    if k == 20 { translocate_case::<4>(1, 2, 2); }
+    if k == 21 { translocate_case::<4>(1, 2, 3); }
+    if k == 22 { translocate_case::<4>(1, 3, 0); }
+    if k == 23 { translocate_case::<4>(1, 3, 1); }
+    if k == 24 { translocate_case::<4>(1, 3, 2); }
+    if k == 25 { translocate_case::<4>(1, 4, 0); }
+    if k == 26 { translocate_case::<4>(1, 4, 1); }
+    if k == 27 { translocate_case::<4>(2, 2, 0); }
+    if k == 28 { translocate_case::<4>(2, 2, 1); }
+    if k == 29 { translocate_case::<4>(2, 2, 2); }
+    if k == 30 { translocate_case::<4>(2, 2, 3); }
+    if k == 31 { translocate_case::<4>(2, 3, 0); }
+    if k == 32 { translocate_case::<4>(2, 3, 1); }
+    if k == 33 { translocate_case::<4>(2, 3, 2); }
+    if k == 34 { translocate_case::<4>(2, 3, 3); }
+    if k == 35 { translocate_case::<4>(2, 4, 0); }
+    if k == 36 { translocate_case::<4>(2, 4, 1); }
+    if k == 37 { translocate_case::<4>(2, 4, 2); }
+    if k == 38 { translocate_case::<4>(3, 3, 0); }
+    if k == 39 { translocate_case::<4>(3, 3, 1); }
+    if k == 40 { translocate_case::<4>(3, 3, 2); }
+    if k == 41 { translocate_case::<4>(3, 3, 3); }
+    if k == 42 { translocate_case::<4>(3, 4, 0); }
+    if k == 43 { translocate_case::<4>(3, 4, 1); }
+    if k == 44 { translocate_case::<4>(3, 4, 2); }
+    if k == 45 { translocate_case::<4>(3, 4, 3); }
 }
 
 fn gene_conserving(c1: &[u8], c2: &[u8], p1: &[u8], p2: &[u8]) {
